@@ -11,7 +11,7 @@ from gsverif.oracles import rot as orot
 
 SHARDS = {"quick": 16, "thorough": 16}
 TIMEOUT = {"quick": 1200, "thorough": 5400}
-REQUIRED_EVENTS = ["ops_applied", "fresh_comparisons", "invariant_evaluations", "rejections_checked"]
+REQUIRED_EVENTS = ["ops_applied", "fresh_comparisons", "invariant_evaluations", "rejections_checked", "constructions_compared"]
 MAX_DISCARD_FRAC = 0.3
 RULE = (
     "seeded setter histories (<= 6 operations from var, var_raw, len_scale scalar/list, anis, angles, nugget, optional "
@@ -110,6 +110,9 @@ def generate(tier, seed):
                 sd = int(rng.integers(1, 4)) if cfg in ("plain", "temporal") else 2
                 cases.append(("history", {"name": name, "cfg": cfg, "spatial_dim": sd, "hseed": int(rng.integers(1 << 30)),
                                           "nops": int(rng.integers(2, 7))}))
+    for name in common.MODELS:
+        for rep in range(max(1, n // 6)):
+            cases.append(("construct", {"name": name, "dim": int(rng.integers(1, 4)), "kseed": int(rng.integers(1 << 30))}))
     for name in common.MODELS:
         for rep in range(max(1, n // 4)):
             cases.append(("bounds", {"name": name, "dim": int(rng.integers(1, 4)), "bseed": int(rng.integers(1 << 30))}))
@@ -625,4 +628,66 @@ def check_bounds(ctx, c):
         ctx.fail({"what": "class-invariant", "model": name}, inv)
 
 
-CHECKS = {"history": check_history, "bounds": check_bounds}
+def check_construct(ctx, c):
+    """Every way of stating the same parameters at construction gives the same model, and the model reports what was stated."""
+    rng = np.random.default_rng(c["kseed"])
+    name, dim = c["name"], c["dim"]
+    if dim > common.max_valid_dim(name):
+        dim = common.max_valid_dim(name)
+    opt = common.draw_opt(rng, name, dim, "interior")
+    var = round(float(rng.uniform(0.3, 3.0)), 3)
+    nug = float(rng.choice([0.0, round(float(rng.uniform(0.05, 0.5)), 3)]))
+    geo = {}
+    if dim > 1:
+        geo["angles"] = [round(float(v), 3) for v in rng.uniform(-3, 3, size=dim * (dim - 1) // 2)]
+    ctx.cell(f"construct/{name}/dim{dim}")
+    route = str(rng.choice(["integral_scale", "integral_scale_list", "len_scale_list", "var_raw"]))
+    mech = {"what": "construction", "model": name, "route": route}
+    with warnings.catch_warnings():
+        warnings.simplefilter("ignore")
+        try:
+            if route == "integral_scale":
+                I = round(float(rng.uniform(0.5, 6.0)), 3)
+                a = _build(name, dict(dim=dim, var=var, nugget=nug, integral_scale=I, **geo, **opt))
+                b = _build(name, dict(dim=dim, nugget=nug, **geo, **opt))
+                b.integral_scale = I
+                b.var = var
+                want = {"var": var, "integral_scale": I}
+            elif route == "integral_scale_list" and dim > 1:
+                Is = [round(float(v), 3) for v in rng.uniform(0.5, 6.0, size=dim)]
+                a = _build(name, dict(dim=dim, var=var, nugget=nug, integral_scale=Is, **geo, **opt))
+                b = _build(name, dict(dim=dim, nugget=nug, **geo, **opt))
+                b.integral_scale = Is
+                b.var = var
+                want = {"var": var, "integral_scale": Is[0], "anis": [v / Is[0] for v in Is[1:]]}
+            elif route == "len_scale_list" and dim > 1:
+                ls = [round(float(v), 3) for v in rng.uniform(0.5, 6.0, size=dim)]
+                a = _build(name, dict(dim=dim, var=var, nugget=nug, len_scale=ls, anis=[9.0] * (dim - 1), **geo, **opt))
+                b = _build(name, dict(dim=dim, var=var, nugget=nug, len_scale=ls[0], anis=[v / ls[0] for v in ls[1:]], **geo, **opt))
+                want = {"var": var, "len_scale": ls[0], "anis": [v / ls[0] for v in ls[1:]]}
+            else:
+                route = "var_raw"
+                vr = round(float(rng.uniform(0.3, 3.0)), 3)
+                L = round(float(rng.uniform(0.5, 6.0)), 3)
+                a = _build(name, dict(dim=dim, var_raw=vr, nugget=nug, len_scale=L, **geo, **opt))
+                b = _build(name, dict(dim=dim, nugget=nug, len_scale=L, **geo, **opt))
+                b.var_raw = vr
+                want = {"var_raw": vr, "len_scale": L}
+        except ValueError as exc:
+            ctx.discard(f"parameters rejected: {str(exc)[:50]}")
+            return
+    ctx.event("constructions_compared")
+    for k, v in want.items():
+        got = getattr(a, k)
+        tol = 2e-3 if k == "integral_scale" else 1e-12
+        if not _close(got, v, tol):
+            ctx.fail(dict(mech, route=route, what="constructed-model-does-not-report-the-stated-value", attr=k), f"{name}(.., {route}): {k} = {got} but {v} was stated (opt {opt})")
+            return
+    sa, sb = _state(a), _state(b)
+    for k in sa:
+        if not _close(sa[k], sb[k], 1e-10 if "integral" in route else 1e-13):
+            ctx.fail(dict(mech, route=route, what="constructor!=setters", attr=k), f"{name} via constructor({route}): {k} = {sa[k]}, via setters {sb[k]} (opt {opt})")
+            return
+
+
+CHECKS = {"history": check_history, "bounds": check_bounds, "construct": check_construct}
